@@ -220,6 +220,33 @@ PROPS = {
                    'model; the readline refinement (word motions as a zipper) is checked per case. Fixed while building: F17.',
         technique='Lean 4 proof (invariants by induction over action histories) + step-by-step process-level correspondence under tmux',
     ),
+    'C15': dict(
+        areas=[],
+        procs=['screens'], needs_fzf=True,
+        rule='the real binary inside a private tmux server driven through --listen; before the first and after every step the '
+             'state reported by GET / and the screen (capture-pane, once two consecutive captures agree) are recorded: 3..14 (quick) / '
+             '3..60 (thorough) steps of editing, navigation and selection actions, header toggles / changes, prompt changes, '
+             'toggle-hscroll and clear-screen, over lists of 0..40 ASCII lines (a third of them longer than the window, some exactly '
+             'as wide as the text area +-1) or 110..150 lines with long lines matched at different places by queries of equal '
+             'length; windows 24..80 x 8..24, three layouts, info default / inline / hidden, separator on/off, --header (0..2 lines, '
+             'also wider than the window), --header-lines 0..2, pointer / marker / ellipsis / prompt variants, --no-hscroll, '
+             '--keep-right, --hscroll-off 0/3/10/25, --multi limits; non-trivial = >= 4 steps on >= 2 lines; distinct = distinct sessions',
+        trusted=['tmux as the terminal emulator (capture-pane)', 'the --listen endpoint for the reported state',
+                 'how the state evolves under the actions is the C09 session model; what matching returns is the C01/C04 model'],
+        level_text='Lean 4 theorems over the rendering model (prompt line, info line, header block, list rows with pointer, marker, '
+                   'truncation by ellipsis / horizontal scrolling / keep-right; three layouts), for every window size, option set '
+                   'and line: a line that fits is shown complete; a truncated line never exceeds its room and consists of the '
+                   'ellipsis and one contiguous slice of the line; pointer iff current, marker iff selected; the k-th result is on '
+                   'the row the layout prescribes and header rows are disjoint from list rows; the prompt line starts with prompt + '
+                   'query and the info line carries the counters; repainting a row over its previous contents (erasing only as far '
+                   'as the previous text reached) equals a repaint from scratch, for every history of repaints. The screen of the '
+                   'real binary is compared cell by cell with a from-scratch rendering of the model state after every step.',
+        level_note='Partial: colours / highlights, borders, margins, preview pane, scrollbar, multi-line items, --wrap, --gap, '
+                   'header-first, info styles right / inline-right, horizontally scrolled queries and non-ASCII widths are outside '
+                   'the model (exact comparison is claimed for ASCII lines, as the property states). Which state change triggers '
+                   'which repaint request is covered by the correspondence only. Found while building: F21.',
+        technique='Lean 4 proof (rendering model: truncation, layout and incremental-repaint theorems) + cell-by-cell screen correspondence under tmux',
+    ),
     'C10': dict(
         areas=[('tok', 20000, 2000000), ('pat', 4000, 400000)],
         rule='seeded lines built from delimiter / blank / multi-byte pieces (leading, trailing, consecutive delimiters); '
